@@ -194,10 +194,7 @@ Theorem period_offsets_correct : forall pbd days fl, length fl = length days ->
      get_period_offsets pbd days (Some fl) = Ok (offsets_spec pbd days fl)) /\
   ((exists d, In (d, true) (combine days fl) /\ ~ idx_ok pbd d) ->
      get_period_offsets pbd days (Some fl) = OOB 2).
-Proof.
-  intros pbd days fl H. split;
-    [exact (period_offsets_flags_ok pbd days fl H)|exact (period_offsets_flags_oob pbd days fl H)].
-Qed.
+Proof. exact period_offsets_correct_proof. Qed.
 Print Assumptions period_offsets_correct.
 
 (* FULL, without in_range: pbd[day] with numpy's single negative wrap, IndexError (OOB site 1)
@@ -206,10 +203,7 @@ Theorem period_offsets_noflags_correct : forall pbd days,
   ((forall d, In d days -> idx_ok pbd d) ->
      get_period_offsets pbd days None = Ok (map (wrap_get pbd) days)) /\
   ((exists d, In d days /\ ~ idx_ok pbd d) -> get_period_offsets pbd days None = OOB 1).
-Proof.
-  intros pbd days. split;
-    [exact (period_offsets_noflags_ok pbd days)|exact (period_offsets_noflags_oob pbd days)].
-Qed.
+Proof. exact period_offsets_noflags_correct_proof. Qed.
 Print Assumptions period_offsets_noflags_correct.
 
 Theorem period_offsets_pre_pointwise : forall pbd days fl, length fl = length days ->
